@@ -4,11 +4,20 @@ property is anchored in (used to find false alarms of the checks). Only the prop
 import json, sys
 pid = sys.argv[1]
 n = int(sys.argv[2]) if len(sys.argv) > 2 else 4
+rnd = sys.argv[3] if len(sys.argv) > 3 else ""
+import glob
+earlier = []
+for m in sorted(glob.glob(f"/verif/seeded/twins/{pid}-*/meta.json")):
+    try:
+        earlier.append(json.load(open(m)).get("summary", ""))
+    except Exception:
+        pass
+excl = ("\nRefactorings of these kinds were already written by others - do something DIFFERENT (other functions, other kinds of restructuring; be bolder: move logic between methods of the same class, replace a loop by vectorised numpy or the reverse, change a local data structure to an equivalent one, merge or split functions, restructure control flow), still strictly behaviour-preserving:\n" + "\n".join(f"  - {e[:220]}" for e in earlier) + "\n") if (rnd and earlier) else ""
 props = {json.loads(l)["id"]: json.loads(l) for l in open("/verif/properties.jsonl") if l.strip()}
 p = props[pid]
-wt = f"/tmp/seed/tw_{pid}"
+wt = f"/tmp/seed/tw{rnd}_{pid}"
 files = ", ".join(p["anchors"]["files"])
-print(f"""You are helping to evaluate a verification tool for the Python library pyhms (agh-a2s/pyhms: a Hierarchic Memetic Strategy — a tree of evolutionary sub-populations with sprouting and stop conditions). You get a private scratch git worktree of the library at {wt} (source under {wt}/pyhms, tests under {wt}/test). Work ONLY inside {wt} and /tmp/seed/twout_{pid}. Never touch /repo or /verif, never run `git commit`, never use `git stash` (the stash is shared between all worktrees of the repository).
+print(f"""You are helping to evaluate a verification tool for the Python library pyhms (agh-a2s/pyhms: a Hierarchic Memetic Strategy — a tree of evolutionary sub-populations with sprouting and stop conditions). You get a private scratch git worktree of the library at {wt} (source under {wt}/pyhms, tests under {wt}/test). Work ONLY inside {wt} and /tmp/seed/twout{rnd}_{pid}. Never touch /repo or /verif, never run `git commit`, never use `git stash` (the stash is shared between all worktrees of the repository).
 
 The library satisfies this property, and it must KEEP satisfying it after your edits:
 
@@ -18,12 +27,12 @@ The library satisfies this property, and it must KEEP satisfying it after your e
 The code that makes the property hold lives mainly in: {files}
 
 Your job: produce {n} DIFFERENT, independent BEHAVIOUR-PRESERVING refactorings of that code — the kind of clean-up a maintainer does without changing what the program computes: rename local variables, introduce or inline a local, extract a small private helper method/function (or inline one), rewrite an expression into an equivalent one (e.g. `a >= b` as `not a < b` only where exactly equivalent, `x.copy()` vs `np.copy(x)`, a comprehension vs. an explicit loop, if/else vs. conditional expression, early return vs. nested if), reorder statements that do not depend on each other, split a compound condition into nested ifs, move a constant into a named variable. Each refactoring should touch the code that is relevant to the property above (not comments, docstrings or unrelated functions), should be moderately sized (5-40 changed lines), and must not change ANY observable behaviour: same results, same random-number consumption order, same evaluation order and counts, same exceptions. Do NOT fix bugs, do not change algorithms, do not change public names or signatures used from other modules or from the tests.
-
+{excl}
 How to run things (offline sandbox; do not install anything):
   * tests: cd {wt} && /venv/bin/python -m pytest -q -p no:cacheprovider --timeout=900   (must report 55 passed with each refactoring)
   * scripts: cd {wt} && PYTHONPATH={wt} /venv/bin/python script.py   (PYTHONPATH is essential, otherwise `import pyhms` resolves to another checkout)
 
-For each variant k = 1..{n} create /tmp/seed/twout_{pid}/{{k}}/ with:
+For each variant k = 1..{n} create /tmp/seed/twout{rnd}_{pid}/{{k}}/ with:
   * patch.diff — `git -C {wt} diff` of exactly this refactoring against the clean worktree (must apply with `git apply` to a clean checkout);
   * equiv.py — a small deterministic script (fixed seeds, < 60 s) that exercises the refactored code through the public API (e.g. a short seeded run of a tree with the relevant engines / sprout mechanism / both optimisation directions where relevant) and prints a digest (e.g. sha256 of genomes, fitness values, ids, counts); it must print the SAME digest on the clean checkout and with the patch applied — run it both ways and record both digests;
   * meta.json — {{"property": "{p['id']}", "kind": "benign-refactoring", "summary": "<one line>", "files": [...], "digest_clean": "...", "digest_patched": "...", "tests": "<n passed>"}}.
